@@ -376,6 +376,13 @@ class Engine:
         if root is None:
             st.epoch += 1
             st.ev('store', loc=loc, value=v, ln=ln)
+            # `*place = Struct { a, b }` stores every field: rules about one field see the same event they would
+            # for `place.a = a`
+            if isinstance(v, tuple) and v and v[0] == 'agg' and isinstance(v[1], str):
+                adt = self.prog.adts.get(v[1])
+                if adt is not None and len(adt['variants']) == 1 and len(adt['variants'][0]['fields']) == len(v[4]) and str(adt.get('kind', 'struct')).lower() != 'enum':
+                    for i, fv in enumerate(v[4]):
+                        st.ev('store', loc=('f', loc, i, v[1]), value=fv, ln=ln, synthetic=True, whole=loc)
 
     def root_local(self, loc):
         while isinstance(loc, tuple) and loc and loc[0] in ('f', 'down', 'ix', 'sub', 'proj'):
